@@ -44,8 +44,15 @@ def _run_harness_chunk(exe, blocks, watchdog):
         out_all.append((text, err))
         if rc == 0 and len(done) == len(blocks) - i:
             break
+        # the watchdog handler prints "O hang / E <id>" itself and exits with status 3: the hung
+        # scenario is the last one listed as done
+        if rc == 3 and done and started and started[-1] == done[-1]:
+            bad = done[-1]
+            notes.append((bad, rc, "watchdog"))
+            idx = next(k for k in range(i, len(blocks)) if blocks[k][0] == bad)
+            i = idx + 1
         # crashed or hung inside scenario `started[-1]` (if it has no E line)
-        if started and (not done or started[-1] != done[-1]):
+        elif started and (not done or started[-1] != done[-1]):
             bad = started[-1]
             notes.append((bad, rc, err[-4000:]))
             # skip past it
